@@ -347,6 +347,157 @@ func RunMarginHistories(c Ctx, rep *report.Report, rng *chain.Rng, n, steps int,
 	return hs
 }
 
+// ScriptExtExt: corpus history — a position whose collateral and borrowed asset are BOTH external tokens.
+func ScriptExtExt(hid int, nextID *int) MHistory {
+	desc := map[string]interface{}{"corpus": "collateral and borrow asset both external"}
+	e := env.New(env.Opts{NUsers: 4, Tokens: []string{"ceth", "cusdc"}})
+	w := &marginWorld{Env: e, FundFC: chain.NewAccount("fundfc"), FundInc: chain.NewAccount("fundinc"), Toks: []string{"ceth", "cusdc"}}
+	addrs := []string{e.Admin.Addr.String(), w.FundFC.Addr.String(), w.FundInc.Addr.String()}
+	for _, u := range e.Users {
+		addrs = append(addrs, u.Addr.String())
+	}
+	e.AssignAccountIDs(addrs)
+	e.BeginBlock()
+	mustOK(e.UpdateRewardsParams(0, 0, 0, "", false), "rewards params")
+	// rowan is worth 100 cusdc: 10,000 rowan against 1,000,000 cusdc
+	mustOK(e.CreatePool(e.Users[0], "cusdc", new(big.Int).Mul(big.NewInt(10000), chain.E(18)), new(big.Int).Mul(big.NewInt(1000000), chain.E(18))), "create pool")
+	mustOK(e.CreatePool(e.Users[0], "ceth", new(big.Int).Mul(big.NewInt(10000), chain.E(18)), new(big.Int).Mul(big.NewInt(10000), chain.E(18))), "create pool")
+	ps := *margintypes.DefaultGenesis().Params
+	ps.ForceCloseFundAddress, ps.IncrementalInterestPaymentFundAddress = w.FundFC.Addr.String(), w.FundInc.Addr.String()
+	ps.LeverageMax = sdk.NewDec(2)
+	mustOK(e.Tx(e.Admin, &margintypes.MsgUpdateParams{Signer: e.Admin.Addr.String(), Params: &ps}), "margin params")
+	mustOK(e.Tx(e.Admin, &margintypes.MsgUpdatePools{Signer: e.Admin.Addr.String(), Pools: []string{"ceth", "cusdc"}}), "margin pools")
+	h := MHistory{ID: hid, Env: e, Desc: desc}
+	e.NextBlock()
+	e.NextBlock()
+	u := e.Users[2]
+	uid := e.AcctID[u.Addr.String()]
+	amt := new(big.Int).Mul(big.NewInt(40), chain.E(18))
+	pre := e.MarginSnapshot()
+	cp0, _ := e.App.ClpKeeper.GetPool(e.Ctx(), "cusdc")
+	hl0 := !cp0.Health.IsNil() && cp0.Health.LTE(e.App.MarginKeeper.GetPoolOpenThreshold(e.Ctx()))
+	m := margintypes.MsgOpen{Signer: u.Addr.String(), CollateralAsset: "cusdc", CollateralAmount: env.U(amt), BorrowAsset: "ceth", Position: margintypes.Position_LONG, Leverage: sdk.NewDec(2)}
+	res := e.Tx(u, &m)
+	post := e.MarginSnapshot()
+	*nextID++
+	ms := MStep{ID: *nextID, Kind: 1, Tag: 1, Signer: uid, Coll: e.DenomID["cusdc"], Bor: e.DenomID["ceth"], Amt: amt, Lev: new(big.Int).Set(sdk.NewDec(2).BigInt()), HealthLow: hl0, OK: res.Code == 0, Pre: pre, Post: post, StepNo: 0,
+		Desc: map[string]interface{}{"tx": "margin Open", "signer": u.Addr.String(), "collateral": amt.String() + "cusdc", "borrow": "ceth", "leverage": "2", "log": trunc(res.Log, 120)}}
+	if res.Code == 0 {
+		for _, mt := range e.App.MarginKeeper.GetAllMTPS(e.Ctx()) {
+			pp, _ := e.App.ClpKeeper.GetPool(e.Ctx(), "cusdc")
+			if hv, err := e.App.MarginKeeper.UpdateMTPHealth(e.Ctx(), *mt, pp); err == nil {
+				ms.NewHealth = new(big.Int).Set(hv.BigInt())
+			}
+		}
+	}
+	h.Steps = append(h.Steps, ms)
+	if res.Code != 0 || len(post.MTPs) == 0 {
+		return h
+	}
+	pre = post
+	mc := margintypes.MsgClose{Signer: u.Addr.String(), Id: uint64(post.MTPs[0].ID)}
+	res = e.Tx(u, &mc)
+	post = e.MarginSnapshot()
+	*nextID++
+	h.Steps = append(h.Steps, MStep{ID: *nextID, Kind: 1, Tag: 2, Signer: uid, PID: pre.MTPs[0].ID, Addr: uid, OK: res.Code == 0, Pre: pre, Post: post, StepNo: 1,
+		Desc: map[string]interface{}{"tx": "margin Close", "signer": u.Addr.String(), "id": pre.MTPs[0].ID, "log": trunc(res.Log, 120),
+			"trader_cusdc_before_open": mbal(h.Steps[0].Pre, uid, e.DenomID["cusdc"]).String(), "trader_cusdc_after_close": mbal(post, uid, e.DenomID["cusdc"]).String()}})
+	return h
+}
+
+// ScriptLiquidationStuck: corpus history for finding F-9. A dust position on a deep pool; a whale swap chosen so that
+// the custody is worth exactly one base unit of the collateral: the liquidation in the next BeginBlock takes the
+// custody out of the pool's custody total and then fails to price it (the pool it is priced against now contains it).
+func ScriptLiquidationStuck(hid int, nextID *int) MHistory {
+	desc := map[string]interface{}{"corpus": "F-9: liquidation fails after TakeOutCustody"}
+	e := env.New(env.Opts{NUsers: 4, Tokens: []string{"ceth"}})
+	w := &marginWorld{Env: e, FundFC: chain.NewAccount("fundfc"), FundInc: chain.NewAccount("fundinc"), Toks: []string{"ceth"}}
+	addrs := []string{e.Admin.Addr.String(), w.FundFC.Addr.String(), w.FundInc.Addr.String()}
+	for _, u := range e.Users {
+		addrs = append(addrs, u.Addr.String())
+	}
+	e.AssignAccountIDs(addrs)
+	e.BeginBlock()
+	mustOK(e.UpdateRewardsParams(0, 0, 0, "", false), "rewards params")
+	fee := clptypes.MsgUpdateSwapFeeParamsRequest{Signer: e.Admin.Addr.String(), DefaultSwapFeeRate: sdk.ZeroDec()}
+	mustOK(e.Tx(e.Admin, &fee), "swap fee params")
+	n := new(big.Int).Mul(big.NewInt(1000), chain.E(18))
+	mustOK(e.CreatePool(e.Users[0], "ceth", n, n), "create pool")
+	ps := *margintypes.DefaultGenesis().Params
+	ps.ForceCloseFundAddress, ps.IncrementalInterestPaymentFundAddress = w.FundFC.Addr.String(), w.FundInc.Addr.String()
+	ps.IncrementalInterestPaymentEnabled = false
+	mustOK(e.Tx(e.Admin, &margintypes.MsgUpdateParams{Signer: e.Admin.Addr.String(), Params: &ps}), "margin params")
+	mustOK(e.Tx(e.Admin, &margintypes.MsgUpdatePools{Signer: e.Admin.Addr.String(), Pools: []string{"ceth"}}), "margin pools")
+	h := MHistory{ID: hid, Env: e, Desc: desc}
+	e.NextBlock()
+	e.NextBlock()
+	u := e.Users[2]
+	uid := e.AcctID[u.Addr.String()]
+	rec := func(st MStep) {
+		*nextID++
+		st.ID = *nextID
+		h.Steps = append(h.Steps, st)
+	}
+	// a dust position: 1000 base units of rowan, leverage 2
+	amt := big.NewInt(1000)
+	pre := e.MarginSnapshot()
+	cp0, _ := e.App.ClpKeeper.GetPool(e.Ctx(), "ceth")
+	hl0 := !cp0.Health.IsNil() && cp0.Health.LTE(e.App.MarginKeeper.GetPoolOpenThreshold(e.Ctx()))
+	m := margintypes.MsgOpen{Signer: u.Addr.String(), CollateralAsset: "rowan", CollateralAmount: env.U(amt), BorrowAsset: "ceth", Position: margintypes.Position_LONG, Leverage: sdk.NewDec(2)}
+	res := e.Tx(u, &m)
+	post := e.MarginSnapshot()
+	ms := MStep{Kind: 1, Tag: 1, Signer: uid, Coll: 0, Bor: e.DenomID["ceth"], Amt: amt, Lev: new(big.Int).Set(sdk.NewDec(2).BigInt()), HealthLow: hl0, OK: res.Code == 0, Pre: pre, Post: post, StepNo: 0,
+		Desc: map[string]interface{}{"tx": "margin Open", "signer": u.Addr.String(), "collateral": "1000rowan", "borrow": "ceth", "leverage": "2", "log": trunc(res.Log, 120)}}
+	if res.Code == 0 && len(post.MTPs) == 1 {
+		mt := e.App.MarginKeeper.GetAllMTPS(e.Ctx())[0]
+		pp, _ := e.App.ClpKeeper.GetPool(e.Ctx(), "ceth")
+		if hv, err := e.App.MarginKeeper.UpdateMTPHealth(e.Ctx(), *mt, pp); err == nil {
+			ms.NewHealth = new(big.Int).Set(hv.BigInt())
+		}
+	}
+	rec(ms)
+	if res.Code != 0 || len(post.MTPs) != 1 {
+		return h
+	}
+	// the whale swap: x ceth -> rowan such that c <= c*Y(x) - X(x) < 2c with X = eb + x, Y = nb - out(x) + nl (fee 0, no ratio shifting)
+	p := mpoolOf(post, e.DenomID["ceth"])
+	c := post.MTPs[0].CustAmt
+	f := func(x *big.Int) *big.Int { // c*Y - X after the swap
+		out := new(big.Int).Div(mulBig(x, new(big.Int).Add(p.NB, p.NL)), new(big.Int).Add(new(big.Int).Add(p.EB, p.EL), x))
+		Y := new(big.Int).Add(new(big.Int).Sub(p.NB, out), p.NL)
+		X := new(big.Int).Add(new(big.Int).Add(p.EB, p.EL), x)
+		return new(big.Int).Sub(mulBig(c, Y), X)
+	}
+	lo, hi := big.NewInt(1), new(big.Int).Mul(p.EB, big.NewInt(1000000))
+	for i := 0; i < 400 && new(big.Int).Sub(hi, lo).Cmp(big.NewInt(1)) > 0; i++ { // f is decreasing: find the largest x with f(x) >= c
+		mid := new(big.Int).Rsh(new(big.Int).Add(lo, hi), 1)
+		if f(mid).Cmp(c) >= 0 {
+			lo = mid
+		} else {
+			hi = mid
+		}
+	}
+	x := lo
+	desc["whale_swap_ceth"], desc["custody"] = x.String(), c.String()
+	pre = e.MarginSnapshot()
+	r2 := e.Swap(e.Users[3], "ceth", "rowan", x, big.NewInt(0))
+	rec(MStep{Kind: 2, OK: r2.Code == 0, Pre: pre, Post: e.MarginSnapshot(), StepNo: 1, Desc: map[string]interface{}{"tx": "clp Swap", "from": "ceth", "to": "rowan", "amount": x.String(), "log": trunc(r2.Log, 100)}})
+	// next block: the liquidation
+	e.EndBlock()
+	e.Commit()
+	pre = e.MarginSnapshot()
+	panicked := e.BeginBlock()
+	post = e.MarginSnapshot()
+	pre.Height = post.Height
+	var rates [][3]*big.Int
+	for _, pp := range pre.Pools {
+		q := mpoolOf(post, pp.Asset)
+		rates = append(rates, [3]*big.Int{q.Rate, q.RN, q.RD})
+	}
+	rec(MStep{Kind: 3, Rates: rates, OK: !panicked, Pre: pre, Post: post, StepNo: 2, Desc: map[string]interface{}{"hook": "BeginBlock"}})
+	return h
+}
+
 // MonMargin — the clauses of C13 on every observed state / transition.
 func MonMargin(rep *report.Report, h MHistory) {
 	e := h.Env
@@ -551,7 +702,8 @@ func C13(c Ctx) *report.Report {
 	rep := report.New("C13", c.Seed, c.Tier)
 	rng := chain.NewRng(c.Seed + 13)
 	next := 0
-	hs := RunMarginHistories(c, rep, rng, c.N(30, 800), 45, &next)
+	hs := []MHistory{ScriptExtExt(9017, &next), ScriptLiquidationStuck(9009, &next)}
+	hs = append(hs, RunMarginHistories(c, rep, rng, c.N(30, 800), 45, &next)...)
 	nontrivial := 0
 	for _, h := range hs {
 		MonMargin(rep, h)
